@@ -28,10 +28,11 @@ const (
 	hbCloseAfterRequest
 	hbStatus500Object
 	hbEmptyObject
+	hbCutBody
 	hbCount
 )
 
-var hbNames = []string{"good", "good-slow", "refuse", "blackhole", "html", "array", "stall-headers", "close-after-request", "status500-object", "empty-object"}
+var hbNames = []string{"good", "good-slow", "refuse", "blackhole", "html", "array", "stall-headers", "close-after-request", "status500-object", "empty-object", "cut-body"}
 
 type httpPlan struct {
 	kind    string
@@ -90,6 +91,10 @@ func (hp *httpPlan) server(addr string) *c10Server {
 		primary.Status = 500
 	case hbEmptyObject:
 		primary.body = []byte("{}")
+	case hbCutBody:
+		// Content-Length announces the whole object, the connection is cut after the first half
+		primary.Framing, primary.Pieces, primary.Fault = "length", 2, "cut-mid-body"
+		primary.body = []byte(fmt.Sprintf(`{"name":"ghost","cluster_name":"ghost","Name":"ghost","ID":"ghost","tagline":%q}`, strings.Repeat("g", 300)))
 	}
 	secondary := &c10Resp{KeepAlive: h>>51%2 == 0, Status: 200, Framing: "length", Pieces: 1, hdrDelay: 1, pieceDelay: 1, body: []byte(`{"idx":{"aliases":{}},"Version":"20.10.7","ApiVersion":"1.41"}`)}
 	if h>>40%4 == 0 {
@@ -158,7 +163,7 @@ func runC08HTTPCmd(t *testing.T, c simrt.Chooser, o Opts) *Out {
 		hp.tls = true
 		s.Extra = append(s.Extra, "--proto", "https")
 	}
-	all := []int{hbGood, hbGood, hbGoodSlow, hbRefuse, hbBlackhole, hbHTML, hbArray, hbStallHeaders, hbCloseAfterRequest, hbStatus500Object, hbEmptyObject}
+	all := []int{hbGood, hbGood, hbGoodSlow, hbRefuse, hbBlackhole, hbHTML, hbArray, hbStallHeaders, hbCloseAfterRequest, hbStatus500Object, hbEmptyObject, hbCutBody, hbCutBody}
 	for i := 2 + p.n("nmix", 5); i > 0; i-- {
 		hp.mix = append(hp.mix, all[p.n("mix", len(all))])
 	}
